@@ -211,58 +211,83 @@ func (w *World) rulesNomenclature(out *[]Obligation) {
 		*out = append(*out, Obligation{Rule: "R16.table", Instance: "40.Nomenclature", Pos: "40", OK: false, Detail: "no Nomenclature method", NonTrivial: true})
 		return
 	}
-	// all byte reads are inside "some bit set" predicates
-	readers := p.readersIn(fd.Body)
-	involved := map[string]bool{}
-	okPred := true
-	donePred := map[ast.Expr]bool{}
-	for _, r := range readers {
-		// climb to the enclosing boolean expression
-		var pred ast.Expr
-		for i := len(r.Path) - 1; i >= 0; i-- {
-			e, ok := r.Path[i].(ast.Expr)
-			if !ok {
-				break
+	// all byte reads — in Nomenclature and in every package function it calls —
+	// are classified: inside a whole-field "some bit set" predicate (then only
+	// the definedness of the metric matters), or not (then every code of the
+	// metric is enumerated)
+	var fns []*ast.FuncDecl
+	seenFn := map[*ast.FuncDecl]bool{}
+	work := []*ast.FuncDecl{fd}
+	for len(work) > 0 {
+		f := work[len(work)-1]
+		work = work[:len(work)-1]
+		if seenFn[f] || f.Body == nil {
+			continue
+		}
+		seenFn[f] = true
+		fns = append(fns, f)
+		ast.Inspect(f.Body, func(n ast.Node) bool {
+			if c, ok := n.(*ast.CallExpr); ok {
+				if fn := calleeOf(p.Info, c); fn != nil && fn.Pkg() == p.P.Types {
+					if d := p.FuncObj[fn]; d != nil {
+						work = append(work, d)
+					}
+				}
 			}
-			if tv, ok := p.Info.Types[e]; ok {
-				if b, ok := tv.Type.Underlying().(*types.Basic); ok && b.Info()&types.IsBoolean != 0 {
-					pred = e
+			return true
+		})
+	}
+	involved := map[string]bool{}
+	fullEnum := map[string]bool{}
+	donePred := map[ast.Expr]bool{}
+	nReaders := 0
+	for _, f := range fns {
+		for _, r := range p.readersIn(f.Body) {
+			nReaders++
+			var pred ast.Expr
+			for i := len(r.Path) - 1; i >= 0; i-- {
+				e, ok := r.Path[i].(ast.Expr)
+				if !ok {
+					break
+				}
+				if tv, ok := p.Info.Types[e]; ok {
+					if b, ok := tv.Type.Underlying().(*types.Basic); ok && b.Info()&types.IsBoolean != 0 {
+						pred = e
+					}
+				}
+			}
+			var bits []BitPos
+			okPred := false
+			if pred != nil {
+				bits, okPred = p.anyBits(pred, nil)
+			}
+			if !okPred {
+				for _, m := range r.Metrics {
+					involved[m] = true
+					fullEnum[m] = true
+				}
+				continue
+			}
+			if donePred[pred] {
+				continue
+			}
+			donePred[pred] = true
+			whole, partial, _ := p.metricsOfBits(bits)
+			for _, m := range whole {
+				involved[m] = true
+			}
+			for _, m := range partial {
+				involved[m] = true
+				fullEnum[m] = true
+				if om := ov.byAbv[m]; om != nil && om.Group != "threat" && om.Group != "environmental" {
+					add(false, "R16.whole", "Nomenclature["+m+"]", pred, fmt.Sprintf("the test reads a bit of %s, a %s metric, which must not influence the nomenclature", m, om.Group))
+				} else {
+					add(false, "R16.whole", "Nomenclature["+m+"]", pred, fmt.Sprintf("the test covers only part of the field of %s: some defined value of %s is not noticed", m, m))
 				}
 			}
 		}
-		if pred == nil {
-			okPred = false
-			add(false, "R16.reads", "Nomenclature.read", r.Expr, "a byte read is not part of a boolean test: undecided")
-			continue
-		}
-		if donePred[pred] {
-			continue
-		}
-		donePred[pred] = true
-		bits, ok := p.anyBits(pred, nil)
-		if !ok {
-			okPred = false
-			add(false, "R16.reads", "Nomenclature.read", pred, "test is not a `some bit set` predicate: undecided")
-			continue
-		}
-		whole, partial, _ := p.metricsOfBits(bits)
-		for _, m := range whole {
-			involved[m] = true
-		}
-		for _, m := range partial {
-			involved[m] = true
-			okPred = false
-			if om := ov.byAbv[m]; om != nil && om.Group != "threat" && om.Group != "environmental" {
-				add(false, "R16.whole", "Nomenclature["+m+"]", pred, fmt.Sprintf("the test reads a bit of %s, a %s metric, which must not influence the nomenclature", m, om.Group))
-			} else {
-				add(false, "R16.whole", "Nomenclature["+m+"]", pred, fmt.Sprintf("the test covers only part of the field of %s: some defined value of %s is not noticed", m, m))
-			}
-		}
 	}
-	if !okPred {
-		return
-	}
-	add(true, "R16.reads", "Nomenclature.reads", fd, fmt.Sprintf("%d byte reads, all inside whole-field `some bit set` predicates over %d metrics", len(readers), len(involved)))
+	add(true, "R16.reads", "Nomenclature.reads", fd, fmt.Sprintf("%d byte reads in %d function(s) reachable from Nomenclature classified; %d metrics involved, %d of them enumerated over all their values", nReaders, len(fns), len(involved), len(fullEnum)))
 	// oracle sets
 	threat := map[string]bool{}
 	envm := map[string]bool{}
@@ -301,11 +326,25 @@ func (w *World) rulesNomenclature(out *[]Obligation) {
 			add(true, "R16.x", "Set["+m+"]", sm.Arm, "code 0 is X and the field is a bit permutation of the code: defined <=> some field bit set")
 		}
 	}
-	if len(ms) > 22 {
+	size := 1
+	doms := make([]int, len(ms))
+	for i, m := range ms {
+		doms[i] = 2
+		if fullEnum[m] {
+			if mm := sm.ByLabel[m]; mm != nil {
+				doms[i] = len(mm.List)
+			}
+		}
+		size *= doms[i]
+		if size > 8_000_000 {
+			break
+		}
+	}
+	if size > 8_000_000 {
 		add(false, "R16.table", "Nomenclature", fd, fmt.Sprintf("%d metrics influence the result: enumeration too large (undecided)", len(ms)))
 		return
 	}
-	// exhaustive enumeration over definedness of the involved metrics
+	// exhaustive enumeration
 	n := len(ms)
 	bad := 0
 	evals := 0
@@ -315,13 +354,24 @@ func (w *World) rulesNomenclature(out *[]Obligation) {
 	for _, m := range ms {
 		perMetricOK[m] = true
 	}
-	for mask := 0; mask < 1<<uint(n); mask++ {
+	cur := make([]int, n)
+	var rec func(i int) bool
+	rec = func(i int) bool {
+		if i < n {
+			for c := 0; c < doms[i]; c++ {
+				cur[i] = c
+				if !rec(i + 1) {
+					return false
+				}
+			}
+			return true
+		}
 		codes := map[string]int{}
 		t, e := false, false
 		pop := 0
 		for i, m := range ms {
-			if mask&(1<<uint(i)) != 0 {
-				codes[m] = 1
+			if cur[i] != 0 {
+				codes[m] = cur[i]
 				pop++
 				if threat[m] {
 					t = true
@@ -341,21 +391,21 @@ func (w *World) rulesNomenclature(out *[]Obligation) {
 		bytes, err := p.bytesFromCodes(codes)
 		if err != nil {
 			add(false, "R16.table", "Nomenclature", fd, err.Error())
-			return
+			return false
 		}
 		v, err := newCEnv(p, bytes).callFunc(fd, nil, fd)
 		evals++
 		if err != nil {
 			add(false, "R16.table", "Nomenclature", fd, "cannot decide: "+err.Error())
-			return
+			return false
 		}
 		if v.K != VStr || v.S != want {
 			bad++
 			if pop < minPop {
 				minPop = pop
 				var def []string
-				for m := range codes {
-					def = append(def, m)
+				for m, c := range codes {
+					def = append(def, m+":"+sm.ByLabel[m].List[c])
 				}
 				sort.Strings(def)
 				firstBad = fmt.Sprintf("with exactly {%s} defined Nomenclature returns %s, specification says %q", strings.Join(def, ","), v, want)
@@ -366,6 +416,10 @@ func (w *World) rulesNomenclature(out *[]Obligation) {
 				}
 			}
 		}
+		return true
+	}
+	if !rec(0) {
+		return
 	}
 	for _, m := range ms {
 		grp := "base/supplemental (must not matter)"
